@@ -1,12 +1,13 @@
 (* C17 driver: one case per line
      <id> <frags> <op> <args> ...
-   frags: "n" (no part) or "f"<hex>,<hex>,... (an empty hex = empty fragment)
+   frags: "n" (no part) or "f"<hex>,<hex>,... (an empty hex = empty fragment, "_" = empty fragment with a NULL address)
    prints "M <id> tok..." (mechanism model) and "S <id> tok..." (specification);
    token = <output>|<remaining message>, the model shows the fragments separated by "/". *)
 let z_of_int n = if n = 0 then Z0 else if n > 0 then Zpos (pos_of_int n) else Zneg (pos_of_int (-n))
 let int_of_z z = match z with Z0 -> 0 | Zpos p -> int_of_pos p | Zneg p -> - (int_of_pos p)
 let hexs l = String.concat "" (List.map (fun b -> Printf.sprintf "%02x" (int_of_n b)) l)
-let unhex s = if s = "-" || s = "" then [] else bytes_of_hex s
+(* "_" = empty fragment without address { NULL, 0 }: the same (empty) byte list for model and specification *)
+let unhex s = if s = "-" || s = "" || s = "_" then [] else bytes_of_hex s
 let nat s = nat_of_int (int_of_string s)
 let rec pos_of_i64 n = if Int64.compare n 1L <= 0 then XH
   else if Int64.logand n 1L = 1L then XI (pos_of_i64 (Int64.shift_right_logical n 1)) else XO (pos_of_i64 (Int64.shift_right_logical n 1))
@@ -36,7 +37,7 @@ let rec parse_ops toks = match toks with
   | "tok" :: t :: c :: e :: r -> OpTok (optset t, set c, set e) :: parse_ops r
   | "cpy" :: l :: d :: r ->
     let dest = if d = "n" then [] else
-      List.map (fun k -> List.init (int_of_string k) (fun _ -> n_of_int 0xee)) (String.split_on_char ',' d) in
+      List.map (fun k -> List.init (if k = "_" then 0 else int_of_string k) (fun _ -> n_of_int 0xee)) (String.split_on_char ',' d) in
     OpCpy (z_of_int (int_of_string l), dest) :: parse_ops r
   | "app" :: p :: r -> OpApp (unhex p) :: parse_ops r
   | "get" :: mx :: qoff :: cont :: off :: take :: v :: r ->
